@@ -289,6 +289,9 @@ PRefutesIdentity == (Profile = "sem" /\ aux.ws # <<>> /\ ~HasExotic(aux.t)) =>
     ((\E i \in 1..Len(aux.t) : ~IsTerm(aux.t[i], FALSE)) => ~LinePrefixOK(aux.t, aux.t, aux.ws))
 (* empty prefix: the marker changes nothing but terminator style / final terminator                        *)
 EmptyPrefixLoose == (Profile = "sem" /\ aux.ws = <<>>) => LooseEq(ImplLP(aux.t, aux.ws), aux.t, TRUE)
+(* the prefix the parser derives from the begin token is the white space in front of the marker              *)
+PrefixIsWs == Profile = "sem" => /\ AutoindentPrefix(aux.ws \o <<123, 123, 42>>) = aux.ws
+                                 /\ AutoindentPrefix(aux.ws \o <<123, 37, 42>>) = aux.ws
 SNext == FALSE /\ UNCHANGED vars
 
 (* ================================================ spec =============================================== *)
